@@ -250,6 +250,9 @@ def run(R, only=None):
             (f"select k, v from p where k = {lo} and k < {hi}", None), (f"select k, v from p where k >= {lo} and k > {c2}", None),
             (f"select k, v from p where k < {hi} and k <= {c}", None), (f"select k, v from p where k > {lo} and k >= {c} and k < {hi + 2}", None),
             (f"select k, v from p where k = {c} and k = {c2}", None), (f"select k, v from p where k >= {lo} and k = {c2} and k <= {hi}", None),
+            # bounds that are not INT constants: they must not be pushed into the scan
+            (f"select k, v from p where k > cast({c} as bigint)", None), (f"select k, v from p where k <= {c}.5", None),
+            (f"select k, v from p where k = cast({c2} as bigint) and v is not null", None),
             ("select k, v from p order by k, v", [(0, False), (1, False)]), ("select k, v from p order by k, v desc", [(0, False), (1, True)]),
             ("select k, v from p order by k", [(0, False)]),
             ("select k, v from (select k, v from p order by k) t order by k, v", [(0, False), (1, False)]),
